@@ -95,6 +95,26 @@ type StreamCase struct {
 	Selectors []string  `json:"selectors,omitempty"`
 	Files     []SimFile `json:"files"`
 	Fault     *Fault    `json:"fault,omitempty"`
+	WFault    *WFault   `json:"wfault,omitempty"`
+}
+
+// WFault: the output sink starts failing at the At-th write (mode c01 only:
+// what a run does about a failing sink is not part of any schedule oracle, but
+// it must still end in success or one of the three kinds).
+type WFault struct {
+	At      int    `json:"at"`
+	ErrKind string `json:"err_kind"`
+	Short   bool   `json:"short"` // the failing writes accept half of the bytes
+}
+
+var simWriteErrors = map[string]error{
+	"epipe":         &fs.PathError{Op: "write", Path: "|1", Err: syscall.EPIPE},
+	"enospc":        &fs.PathError{Op: "write", Path: "/dev/stdout", Err: syscall.ENOSPC},
+	"short-write":   io.ErrShortWrite,
+	"closed-pipe":   io.ErrClosedPipe,
+	"plain":         errors.New("sink unavailable"),
+	"eof":           io.EOF,
+	"wrapped-epipe": fmt.Errorf("flush: %w", syscall.EPIPE),
 }
 
 // Visible returns the bytes the reader of file i can hand out, and whether the
@@ -294,6 +314,17 @@ func (r *simReader) Read(p []byte) (int, error) {
 type simWriter struct{ run *streamRun }
 
 func (w *simWriter) Write(p []byte) (int, error) {
+	if wf := w.run.c.WFault; wf != nil && w.run.writes >= wf.At {
+		n := 0
+		if wf.Short {
+			n = len(p) / 2
+		}
+		w.run.out.Write(p[:n])
+		w.run.writes++
+		w.run.faults["WRITE_ERROR_"+wf.ErrKind]++
+		w.run.log.add('W', 'e', "WRITE %q accepted=%d err=%s", p, n, wf.ErrKind)
+		return n, simWriteErrors[wf.ErrKind]
+	}
 	w.run.out.Write(p)
 	w.run.writes++
 	w.run.log.add('W', 'w', "WRITE %q", p)
